@@ -1,5 +1,411 @@
 import GnpyModel.Scalar
-/- model file Route (see DESIGN.md §2) -/
-namespace Gnpy
+/-
+Route.lean — C11 / C12.  Finite weighted digraphs, simple-path enumeration, the constrained shortest-path ORACLE and
+CHECKER, the decision wrapper of `compute_constrained_path`, the route-list clean-up, `ispart`, `explicit_path`,
+`find_reversed_path`, `isdisjoint` and the candidate selection of `compute_path_dsjctn` (gnpy/topology/request.py).
 
-end Gnpy
+networkx (`shortest_simple_paths`, `dijkstra_path`, `all_simple_paths`) is NOT modelled: the functions below are a
+verified oracle (what the library calls must deliver for the property to hold) and a verified checker that is run on
+the paths the implementation really returns.  Core Lean only (the driver links this file).
+
+Units: the code's edge weight is the fibre length in metres on the out-edge of a Fiber and the constant 0.01 on every
+other edge (json_io.network_from_json l.760-770, core/network.py add_roadm_booster / add_roadm_preamp /
+add_inline_amplifier / split_fiber).  Here an edge carries `len` (metres, integer; 0 on a non-fibre edge) and `pseudo`
+(number of 0.01 units; 1 on a non-fibre edge, 0 on a fibre edge); the weight in units of 0.01 m is `100*len + pseudo`.
+-/
+namespace Gnpy.Route
+
+abbrev V := Nat
+
+/-- a finite digraph on the nodes `0 … n-1`; `succ` is the adjacency in networkx order -/
+structure Graph where
+  n : Nat
+  succ : V → List V
+  len : V → V → Nat
+  pseudo : V → V → Nat
+
+/-- every edge joins two nodes of the graph -/
+def Graph.WF (g : Graph) : Prop := ∀ u v, v ∈ g.succ u → u < g.n ∧ v < g.n
+
+/-- weight of one edge in units of 0.01 m (what `weight=` holds, times 100) -/
+def Graph.wt (g : Graph) (u v : V) : Nat := 100 * g.len u v + g.pseudo u v
+
+/-! ### walks, simple paths, routes -/
+
+/-- `p` follows existing directed edges (a single node is a walk, the empty list is not) -/
+def IsWalk (g : Graph) : List V → Prop
+  | [] => False
+  | [_] => True
+  | u :: v :: rest => v ∈ g.succ u ∧ IsWalk g (v :: rest)
+
+def isWalkB (g : Graph) : List V → Bool
+  | [] => false
+  | [_] => true
+  | u :: v :: rest => (g.succ u).contains v && isWalkB g (v :: rest)
+
+/-- loop-free walk from `s` to `t` that avoids the nodes of `avoid` -/
+def IsSimplePath (g : Graph) (s t : V) (avoid : List V) (p : List V) : Prop :=
+  p.head? = some s ∧ p.getLast? = some t ∧ IsWalk g p ∧ p.Nodup ∧ (∀ x ∈ p, x ∉ avoid)
+
+/-- THE ROUTE PREDICATE of property C11: starts at `s`, ends at `t`, follows edges, visits no element twice and crosses
+the include list `inc` in order (as a subsequence) -/
+def IsRoute (g : Graph) (s t : V) (inc : List V) (p : List V) : Prop :=
+  p.head? = some s ∧ p.getLast? = some t ∧ IsWalk g p ∧ p.Nodup ∧ inc.Sublist p
+
+def nodupB : List V → Bool
+  | [] => true
+  | x :: xs => !(xs.contains x) && nodupB xs
+
+/-- executable checker run on the path the implementation returns -/
+def checkRoute (g : Graph) (s t : V) (inc : List V) (p : List V) : Bool :=
+  p.head? == some s && p.getLast? == some t && isWalkB g p && nodupB p && inc.isSublist p
+
+/-- DFS enumeration of the simple paths `u ⇝ t` avoiding `vis` (fuel = bound on the number of nodes of a path) -/
+def pathsFrom (g : Graph) (t : V) : Nat → V → List V → List (List V)
+  | 0, _, _ => []
+  | fuel+1, u, vis =>
+    if u ∈ vis then [] else
+    if u = t then [[t]] else
+      ((g.succ u).filter (fun v => v ∉ u :: vis)).flatMap
+        (fun v => (pathsFrom g t fuel v (u :: vis)).map (u :: ·))
+
+/-- all simple paths from `s` to `t` -/
+def simplePaths (g : Graph) (s t : V) : List (List V) := pathsFrom g t (g.n + 1) s []
+
+/-! ### weights -/
+
+def pathSum (f : V → V → Nat) : List V → Nat
+  | u :: v :: rest => f u v + pathSum f (v :: rest)
+  | _ => 0
+
+/-- total weight of a path in 0.01 m units (what networkx minimises) -/
+def pathWeight (g : Graph) (p : List V) : Nat := pathSum g.wt p
+/-- total fibre length of a path in metres (what the property talks about) -/
+def pathLen (g : Graph) (p : List V) : Nat := pathSum g.len p
+def pathPseudo (g : Graph) (p : List V) : Nat := pathSum g.pseudo p
+
+/-- first minimum (Python `min(key=)`) -/
+def argmin {α : Type} (w : α → Nat) : List α → Option α
+  | [] => none
+  | x :: xs =>
+    match argmin w xs with
+    | none => some x
+    | some y => if w x ≤ w y then some x else some y
+
+/-- simple paths that cross `inc` in order -/
+def validPaths (g : Graph) (s t : V) (inc : List V) : List (List V) :=
+  (simplePaths g s t).filter (fun p => inc.isSublist p)
+
+/-- THE ORACLE: a minimum-weight route from `s` to `t` crossing `inc` in order, `none` when there is none -/
+def bestRoute (g : Graph) (s t : V) (inc : List V) : Option (List V) :=
+  argmin (pathWeight g) (validPaths g s t inc)
+
+/-! ### `ispart` (request.py l.956-967) -/
+
+def ispartAux (b : List V) : Nat → List V → Bool
+  | _, [] => true
+  | j, e :: rest =>
+    if b.contains e then
+      if b.idxOf e ≥ j then ispartAux b (b.idxOf e) rest else false
+    else false
+
+/-- "all `a` elements are part of `b` and in the same order" -/
+def ispart (a b : List V) : Bool := ispartAux b 0 a
+
+/-! ### route-list clean-up (`correct_json_route_list`, request.py l.1060-1105)
+
+Names are numbered by the harness: a name of the topology is its node id (< n), any other name gets an id ≥ n.
+`hops` are the `hop-type`s (`true` = STRICT).  The lists are kept zipped. -/
+
+inductive CleanErr | sourceNotTrx | destNotTrx | strictUnknown
+deriving Repr, DecidableEq
+
+/-- `list.remove(x)` together with `loose_list.pop(nodes_list.index(x))`: drops the first pair whose node is `x` -/
+def eraseFirst (x : V) : List (V × Bool) → List (V × Bool)
+  | [] => []
+  | (y, h) :: rest => if y = x then rest else (y, h) :: eraseFirst x rest
+
+/-- the loop over the *copy* `temp` while the request's own lists are edited -/
+def cleanLoop (isNode isTrx : V → Bool) : List (V × Bool) → List (V × Bool) → Except CleanErr (List (V × Bool))
+  | [], cur => .ok cur
+  | (x, strict) :: temp, cur =>
+    if !(isNode x) || isTrx x then
+      if !strict then cleanLoop isNode isTrx temp (eraseFirst x cur)
+      else .error .strictUnknown
+    else cleanLoop isNode isTrx temp cur
+
+def dropLast {α : Type} (l : List α) : List α := l.take (l.length - 1)
+
+/-- "silently remove source and dest nodes from the list" (first entry = source, then last entry = destination) -/
+def stripEnds (s t : V) (route : List (V × Bool)) : List (V × Bool) :=
+  let r1 := match route with
+    | (x, _) :: rest => if x = s then rest else route
+    | [] => route
+  match r1.getLast? with
+  | some (x, _) => if x = t then dropLast r1 else r1
+  | none => r1
+
+def correctRouteList (isNode isTrx : V → Bool) (s t : V) (route : List (V × Bool)) :
+    Except CleanErr (List (V × Bool)) :=
+  if !(isTrx s) then .error .sourceNotTrx
+  else if !(isTrx t) then .error .destNotTrx
+  else
+    let r := stripEnds s t route
+    cleanLoop isNode isTrx r r
+
+/-! ### `explicit_path` (request.py l.1278-1311, repaired: the shortcut must honour the include list and be a walk) -/
+
+def uniqueOrdered : List V → List V
+  | l => l.foldl (fun acc x => if acc.contains x then acc else acc ++ [x]) []
+
+/-- `omsOf e` = id of the OMS the line element `e` belongs to (`none` for ROADMs/transceivers: no `.oms` attribute);
+`els o` = `oms.el_list` (ingress ROADM, line elements, egress ROADM); `sR`/`dR` = `source_roadm`/`destination_roadm`
+(`none` = StopIteration).  `walkOk` = every hop of the candidate is an edge. -/
+def explicitPath (g : Graph) (omsOf : V → Option Nat) (els : Nat → List V) (sR dR : Option V)
+    (nodeList : List V) (s t : V) : Option (List V) :=
+  match uniqueOrdered (nodeList.filterMap omsOf) with
+  | [] => none
+  | o0 :: rest =>
+    match sR, dR with
+    | some sr, some dr =>
+      let lastO := (o0 :: rest).getLast?.getD o0
+      if (els o0).head? == some sr && (els lastO).getLast? == some dr then
+        -- walk along the chain, every OMS must start where the previous one ends
+        let step := fun (acc : Option (Nat × List V)) (o : Nat) =>
+          match acc with
+          | none => none
+          | some (prev, path) =>
+            if (els prev).getLast? == (els o).head? && (els o) != [] then some (o, path ++ els o) else none
+        match rest.foldl step (some (o0, [s] ++ els o0)) with
+        | none => none
+        | some (_, path) =>
+          let p := uniqueOrdered (path ++ [t])
+          if isWalkB g p && ispart nodeList p then some p else none
+      else none
+    | _, _ => none
+
+/-! ### the decision wrapper of `compute_constrained_path` (request.py l.330-379) -/
+
+inductive Decision
+  | explicit (p : List V)        -- the include list spells the whole route
+  | constrained (p : List V)     -- a minimum-weight route crossing the include list
+  | unconstrained (p : List V)   -- all hops LOOSE and unsatisfiable: constraints dropped, plain shortest path
+  | noPath                       -- blocking_reason NO_PATH
+  | noPathWithConstraint         -- blocking_reason NO_PATH_WITH_CONSTRAINT
+deriving Repr, DecidableEq
+
+/-- `inc` = `req.nodes_list[:-1]`, `strict` = `'STRICT' in req.loose_list[:-1]`, `ex` = result of `explicit_path` -/
+def decideRoute (g : Graph) (s t : V) (inc : List V) (strict : Bool) (ex : Option (List V)) : Decision :=
+  match ex with
+  | some p => .explicit p
+  | none =>
+    match bestRoute g s t [] with
+    | none => .noPath                                   -- NetworkXNoPath
+    | some p0 =>
+      match bestRoute g s t inc with
+      | some p => .constrained p
+      | none => if strict then .noPathWithConstraint    -- one STRICT makes the whole list STRICT
+                else .unconstrained p0                  -- dijkstra_path without constraints
+
+/-! ### OMS level: links, reversal, disjointness (C12) -/
+
+/-- the ROADM-to-ROADM links crossed by a path: consecutive ROADMs of the path -/
+def linksOf (isRoadm : V → Bool) (p : List V) : List (V × V) :=
+  let r := p.filter isRoadm
+  r.zip r.tail
+
+/-- THE DISJOINTNESS PREDICATE of property C12: no common link, a link and its opposite direction identified -/
+def LinkDisjoint (isRoadm : V → Bool) (p q : List V) : Prop :=
+  ∀ l ∈ linksOf isRoadm p, l ∉ linksOf isRoadm q ∧ (l.2, l.1) ∉ linksOf isRoadm q
+
+def linkDisjointB (isRoadm : V → Bool) (p q : List V) : Bool :=
+  (linksOf isRoadm p).all (fun l => !(linksOf isRoadm q).contains l && !(linksOf isRoadm q).contains (l.2, l.1))
+
+/-- all paths of a list pairwise link-disjoint -/
+def allDisjointB (isRoadm : V → Bool) : List (List V) → Bool
+  | [] => true
+  | p :: rest => rest.all (fun q => linkDisjointB isRoadm p q) && allDisjointB isRoadm rest
+
+/-- `pairwise` of itertools -/
+def pairsOf {α : Type} : List α → List (α × α)
+  | a :: b :: rest => (a, b) :: pairsOf (b :: rest)
+  | _ => []
+
+/-- `isdisjoint` (request.py l.912-919): 1 when the two lists have a common pair of consecutive entries -/
+def isdisjointPy (a b : List V) : Nat :=
+  if (pairsOf a).any (fun e => (pairsOf b).contains e) then 1 else 0
+
+/-- the short list built in step 1: ROADMs and the element that follows a ROADM, transceivers cut off
+    (`[e.uid for i, e in enumerate(pth[1:-1]) if isinstance(e, Roadm) | isinstance(pth[i], Roadm)]`) -/
+def shortListAux (isRoadm : V → Bool) : V → List V → List V
+  | _, [] => []
+  | prev, e :: rest => if isRoadm e || isRoadm prev then e :: shortListAux isRoadm e rest
+                       else shortListAux isRoadm e rest
+
+def shortList (isRoadm : V → Bool) (p : List V) : List V :=
+  match p with
+  | [] => []
+  | p0 :: rest => shortListAux isRoadm p0 (dropLast rest)
+
+/-- `find_reversed_path` (request.py l.922-953): `omsOf`/`els` as above, `rev o` = `oms.reversed_oms` -/
+def reversedPath (omsOf : V → Option Nat) (els : Nat → List V) (rev : Nat → Option Nat) (isEnd : V → Bool)
+    (p : List V) : Option (List V) :=
+  match p.getLast?, p.head? with
+  | some last, some first =>
+    let revs := (p.filter (fun e => !isEnd e)).map (fun e => (omsOf e).bind rev)
+    -- OrderedDict.fromkeys(reversed(...)) over Option values
+    let keys := revs.reverse.foldl (fun acc x => if acc.contains x then acc else acc ++ [x]) ([] : List (Option Nat))
+    let body := keys.foldl (fun (acc : Option (List V)) k =>
+      match acc, k with
+      | some path, some o => some (uniqueOrdered (path ++ els o))
+      | _, _ => none) (some [last])
+    body.map (fun path => path ++ [first])
+  | _, _ => none
+
+/-! ### abstract OMS chains (for the theorems about `isdisjoint` and the reversed path)
+
+An OMS is described by its ingress ROADM, the first line element after it, and its egress ROADM. -/
+structure Oms where
+  src : V
+  first : V
+  dst : V
+deriving Repr, DecidableEq
+
+/-- the short list of a path that crosses the chain `c`: `[src₀, first₀, src₁, first₁, …, dst_last]` -/
+def shortOf : List Oms → List V
+  | [] => []
+  | [o] => [o.src, o.first, o.dst]
+  | o :: o' :: rest => o.src :: o.first :: shortOf (o' :: rest)
+
+/-- the chain crossed by the reversed path -/
+def revChain (rev : Oms → Oms) (c : List Oms) : List Oms := (c.map rev).reverse
+
+/-- sites (ROADMs) visited along a chain -/
+def sitesOf : List Oms → List V
+  | [] => []
+  | o :: rest => o.src :: (o :: rest).map (·.dst)
+
+/-! ### the disjointness oracle for one pair of requests (C12, completeness) -/
+
+/-- candidates of step 1: simple paths of at most 80 hops (`all_simple_paths(..., cutoff=80)`) -/
+def candPaths (g : Graph) (s t : V) : List (List V) := (simplePaths g s t).filter (fun p => p.length ≤ 81)
+
+structure Req where
+  s : V
+  t : V
+  inc : List V          -- `nodes_list` after clean-up (destination not yet appended)
+  strict : Bool         -- 'STRICT' in `loose_list`
+deriving Repr
+
+/-- step 4: a candidate is acceptable when it honours the include list, or when the list has only LOOSE hops -/
+def acceptable (r : Req) (p : List V) : Bool := r.inc.isSublist p || !r.strict
+
+/-- THE PAIR ORACLE: is there a pair of acceptable candidate routes without a common link (either direction)? -/
+def disjointOracle (g : Graph) (isRoadm : V → Bool) (r1 r2 : Req) : Bool :=
+  (candPaths g r1.s r1.t).any (fun p => acceptable r1 p &&
+    (candPaths g r2.s r2.t).any (fun q => acceptable r2 q && linkDisjointB isRoadm p q))
+
+/-! ### candidate selection of `compute_path_dsjctn`, steps 2-5, over abstract candidate ids
+
+A candidate path is identified by `(request index, path index)`; `dis r i r' j = true` ⇔ the implementation's test
+`isdisjoint(p, q) + isdisjoint(p_reversed, q) == 0` for candidate `i` of request `r` and candidate `j` of `r'`. -/
+
+abbrev Cand := Nat × Nat
+
+structure SelInput where
+  ncand : Nat → Nat                          -- number of candidate paths of request r (sorted by length)
+  dis : Cand → Cand → Bool                   -- implementation's pairwise test
+  okInc : Cand → Bool                        -- ispart(req.nodes_list, path)  (true when nodes_list is empty)
+  hasStrict : Nat → Bool                     -- 'STRICT' in req.loose_list
+  hasInc : Nat → Bool                        -- bool(req.nodes_list)
+  vid : Cand → Nat                           -- value of the short list: two candidates (of different requests) with the
+                                             -- same `vid` are `==` in Python (`pth in cndt` compares lists by value)
+
+def candsOf (inp : SelInput) (r : Nat) : List Cand := (List.range (inp.ncand r)).map (fun i => (r, i))
+
+/-- step 2 for one synchronisation vector `dlist` (request indices) -/
+def step2 (inp : SelInput) (dlist : List Nat) : List (List Cand) :=
+  match dlist with
+  | [] => []
+  | r0 :: others =>
+    others.foldl (fun dpath r =>
+      (candsOf inp r).flatMap (fun c1 =>
+        dpath.filterMap (fun cndt => if cndt.all (fun c => inp.dis c1 c) then some (cndt ++ [c1]) else none)))
+      ((candsOf inp r0).map (fun c => [c]))
+
+/-- Python `for x in l: if cond(x): l.remove(x)`: the list iterator advances by index, so the element that follows a
+removed one is skipped (kept without being examined) -/
+def pyRemoveWhileIterating {α : Type} (cond : α → Bool) : List α → List α
+  | [] => []
+  | [x] => if cond x then [] else [x]
+  | x :: y :: rest => if cond x then y :: pyRemoveWhileIterating cond rest
+                      else x :: pyRemoveWhileIterating cond (y :: rest)
+
+/-- `pth in cndt` followed by `allpaths[id(cndt[cndt.index(pth)])].req.request_id == pathreq.request_id`:
+the first entry of the combination that is `==` to the path belongs to the request under examination -/
+def usedBy (vid : Cand → Nat) (c : Cand) (cndt : List Cand) : Bool :=
+  match cndt.find? (fun x => vid x == vid c) with
+  | some x => x.1 == c.1
+  | none => false
+
+/-- `pth in cndt` (by value) -/
+def holdsValue (vid : Cand → Nat) (c : Cand) (cndt : List Cand) : Bool := cndt.any (fun x => vid x == vid c)
+
+/-- step 3: for request `r` and each of its candidate paths: if some concerned vector has no combination using it,
+remove the combinations using it from all concerned vectors (with Python's remove-while-iterating semantics).
+`cands` = list of (vector id, combinations) -/
+def step3One (vid : Cand → Nat) (concerned : List Nat) (c : Cand) (cands : List (Nat × List (List Cand))) :
+    List (Nat × List (List Cand)) :=
+  let missing := concerned.any (fun d =>
+    match cands.lookup d with
+    | some combos => !(combos.any (usedBy vid c))
+    | none => true)
+  if missing then
+    cands.map (fun (d, combos) =>
+      if concerned.contains d then (d, pyRemoveWhileIterating (holdsValue vid c) combos)
+      else (d, combos))
+  else cands
+
+def step3 (inp : SelInput) (groups : List (Nat × List Nat)) (reqs : List Nat)
+    (cands : List (Nat × List (List Cand))) : List (Nat × List (List Cand)) :=
+  reqs.foldl (fun cs r =>
+    let concerned := (groups.filter (fun g => g.2.contains r)).map (·.1)
+    (candsOf inp r).foldl (fun cs c => step3One inp.vid concerned c cs) cs) cands
+
+/-- step 4 for one vector: keep the combinations honouring every include list; else those that fail only on all-LOOSE
+lists; else nothing -/
+def step4 (inp : SelInput) (combos : List (List Cand)) : List (List Cand) :=
+  let ok := combos.filter (fun sol => sol.all (fun c => !(inp.hasInc c.1) || inp.okInc c))
+  let alt := combos.filter (fun sol =>
+    !(sol.all (fun c => !(inp.hasInc c.1) || inp.okInc c)) &&
+    sol.all (fun c => !(inp.hasInc c.1) || inp.okInc c || !(inp.hasStrict c.1)))
+  if !ok.isEmpty then ok else alt
+
+/-- `remove_candidate`: drop every combination (in every vector) that uses another path for request `c.1` -/
+def removeCandidate (c : Cand) (cands : List (Nat × List (List Cand))) : List (Nat × List (List Cand)) :=
+  cands.map (fun (d, combos) => (d, combos.filter (fun sol => sol.all (fun x => x.1 != c.1 || x == c))))
+
+/-- step 5: first combination of every vector in turn; `none` = DisjunctionError.
+    state = (remaining candidates, requests still to be served, chosen paths) -/
+def step5 (order : List Nat) (cands : List (Nat × List (List Cand))) (todo : List Nat) :
+    Option (List Cand) :=
+  let rec go : List Nat → List (Nat × List (List Cand)) → List Nat → List Cand → Option (List Cand)
+    | [], _, _, chosen => some chosen
+    | d :: ds, cands, todo, chosen =>
+      match (cands.lookup d).bind (·.head?) with
+      | none => none
+      | some sol =>
+        let (cands', todo', chosen') := sol.foldl (fun (st : List (Nat × List (List Cand)) × List Nat × List Cand) c =>
+          if st.2.1.contains c.1 then (removeCandidate c st.1, st.2.1.erase c.1, st.2.2 ++ [c]) else st)
+          (cands, todo, chosen)
+        go ds cands' todo' chosen'
+  go order cands todo []
+
+/-- steps 2-5 -/
+def selectDisjoint (inp : SelInput) (groups : List (Nat × List Nat)) (reqs : List Nat) : Option (List Cand) :=
+  let c2 := groups.map (fun g => (g.1, step2 inp g.2))
+  let c3 := step3 inp groups reqs c2
+  let c4 := c3.map (fun (d, combos) => (d, step4 inp combos))
+  step5 (groups.map (·.1)) c4 reqs
+
+end Gnpy.Route
